@@ -1,4 +1,4 @@
-import Dbus.Proofs.Bus.Frame
+import Dbus.Proofs.Bus.Limits
 /-
   Towards "what every other client observes is the same as if the monitor were absent" (C18).
 
@@ -263,5 +263,260 @@ theorem shadow_sendFromDriver {t t' : Tx} (h : Shadow t t') (to : ConnId) (m : M
   unfold sendFromDriver
   rw [h.1, stampDriver_shade]
   exact shadow_sendStamped (Shadow.capture h _ _ _ _ _ _) to _
+
+/-! ### towards a whole step: the weaker relation, and writes that commute with `shade` -/
+
+theorem neutral_idem (x : Conn) : neutral (neutral x) = neutral x := by
+  unfold neutral
+  by_cases h : x.monitor = true
+  · simp [h]
+  · simp [h]
+
+theorem shade_idem (b : Bus) : shade (shade b) = shade b := by
+  unfold shade
+  simp only [List.map_map]
+  congr 1
+  apply List.map_congr_left
+  intro x _
+  exact neutral_idem x
+
+/-- the two runs agree once their monitors are shaded -/
+def Sim (t t' : Tx) : Prop := shade t'.bus = shade t.bus ∧ t'.out = t.out
+
+theorem Sim.refl (t : Tx) : Sim t t := ⟨rfl, rfl⟩
+theorem Sim.symm {t t' : Tx} (h : Sim t t') : Sim t' t := ⟨h.1.symm, h.2.symm⟩
+theorem Sim.trans {a b c : Tx} (h1 : Sim a b) (h2 : Sim b c) : Sim a c := ⟨h2.1.trans h1.1, h2.2.trans h1.2⟩
+
+theorem Shadow.sim {t t' : Tx} (h : Shadow t t') : Sim t t' := ⟨by rw [h.1, shade_idem], h.2⟩
+
+/-- every function that respects `Shadow` respects `Sim`: both runs are shadowed by the same shaded run -/
+theorem sim_of_shadow (f : Tx → Tx) (hf : ∀ t t', Shadow t t' → Shadow (f t) (f t')) {t t' : Tx} (h : Sim t t') :
+    Sim (f t) (f t') := by
+  have h1 : Shadow t ({ bus := shade t.bus, out := t.out } : Tx) := ⟨rfl, rfl⟩
+  have h2 : Shadow t' ({ bus := shade t.bus, out := t.out } : Tx) := ⟨h.1.symm, h.2.symm⟩
+  have r1 := hf _ _ h1
+  have r2 := hf _ _ h2
+  exact ⟨by rw [← r2.1, ← r1.1], by rw [← r2.2, ← r1.2]⟩
+
+/-- a per-connection update that does not look at, or touch, the monitor fields -/
+def Blind (g : Conn → Conn) : Prop := ∀ x, neutral (g x) = g (neutral x)
+
+theorem updConn_shade (b : Bus) (c : ConnId) (g : Conn → Conn) (hg : Blind g) :
+    (shade b).updConn c g = shade (b.updConn c g) := by
+  unfold Bus.updConn shade
+  simp only [List.map_map]
+  congr 1
+  apply List.map_congr_left
+  intro x _
+  simp only [Function.comp, neutral_id]
+  split
+  · exact (hg x).symm
+  · rfl
+
+theorem blind_rules (g : List MatchRule → List MatchRule) : Blind (fun x => { x with rules := g x.rules }) := by
+  intro x
+  unfold neutral
+  by_cases h : x.monitor = true <;> simp [h]
+
+theorem updRules_shade (b : Bus) (c : ConnId) (g : List MatchRule → List MatchRule) :
+    (shade b).updRules c g = shade (b.updRules c g) := updConn_shade b c _ (blind_rules g)
+
+theorem setOwners_shade (b : Bus) (n : Bytes) (os : List Owner) : (shade b).setOwners n os = shade (b.setOwners n os) := by
+  unfold Bus.setOwners
+  show (if os.isEmpty = true then _ else if (b.services.any fun x => x.name == n) = true then _ else _) = _
+  by_cases h1 : os.isEmpty = true
+  · simp only [h1, if_true]; rfl
+  · simp only [h1, if_false]
+    by_cases h2 : (b.services.any fun x => x.name == n) = true
+    · simp only [h2, if_true]; rfl
+    · simp only [h2, if_false]; rfl
+
+theorem syncOwned_shade (b : Bus) (n : Bytes) (os os' : List Owner) : syncOwned (shade b) n os os' = shade (syncOwned b n os os') := by
+  unfold syncOwned shade
+  simp only [List.map_map]
+  congr 1
+  apply List.map_congr_left
+  intro x _
+  simp only [Function.comp, neutral_id]
+  unfold neutral
+  by_cases h : x.monitor = true
+  · simp only [h, if_true]
+    split
+    · rfl
+    · split <;> rfl
+  · simp only [h]
+    split
+    · simp [h]
+    · split <;> simp [h]
+
+theorem ownersOf_shade (b : Bus) (n : Bytes) : ownersOf (shade b) n = ownersOf b n := rfl
+
+theorem removeConn_shade (c : ConnId) (b : Bus) : removeConn c (shade b) = shade (removeConn c b) := by
+  unfold removeConn shade
+  simp only
+  congr 1
+  induction b.conns with
+  | nil => rfl
+  | cons x xs ih =>
+    simp only [List.map_cons, List.filter_cons, neutral_id]
+    split
+    · simp only [List.map_cons]; rw [ih]
+    · exact ih
+
+/-! ### the registry: signals, queue edits -/
+
+theorem neutral_owned (x : Conn) : (neutral x).owned = x.owned := by unfold neutral; split <;> rfl
+theorem neutral_uid (x : Conn) : (neutral x).uid = x.uid := by unfold neutral; split <;> rfl
+
+theorem uniqueOrEmpty_shade (b : Bus) (c : ConnId) : (shade b).uniqueOrEmpty c = b.uniqueOrEmpty c := by
+  unfold Bus.uniqueOrEmpty; rw [nameOf_shade]
+
+theorem connName_shade (b : Bus) (c : Option ConnId) : connName (shade b) c = connName b c := by
+  cases c with
+  | none => rfl
+  | some c => exact uniqueOrEmpty_shade b c
+
+theorem connPolicy_shade (b : Bus) (c : ConnId) : connPolicy (shade b) c = connPolicy b c := by
+  unfold connPolicy; rw [conn?_shade]
+  cases b.conn? c with
+  | none => rfl
+  | some x => simp [neutral_policy]
+
+theorem nOwned_shade (b : Bus) (c : ConnId) : nOwned (shade b) c = nOwned b c := by
+  unfold nOwned; rw [conn?_shade]
+  cases b.conn? c with
+  | none => rfl
+  | some x => simp [neutral_owned]
+
+theorem shadow_sigOwnerChanged {t t' : Tx} (h : Shadow t t') (hc : MonClean t.bus) (n o w : Bytes) :
+    Shadow (sigOwnerChanged t n o w) (sigOwnerChanged t' n o w) := by
+  unfold sigOwnerChanged
+  exact (shadow_dispatchMatches (Shadow.capture h _ _ _ _ _ _) (by rw [(capture_frame _ _ _ _).1]; exact hc) none none _).1
+
+theorem shadow_emitSig {t t' : Tx} (h : Shadow t t') (hc : MonClean t.bus) (n : Bytes) (s : Sig) :
+    Shadow (emitSig n t s) (emitSig n t' s) := by
+  cases s with
+  | lost c => exact shadow_sendFromDriver h c _
+  | acquired c => exact shadow_sendFromDriver h c _
+  | changed o w =>
+    show Shadow (sigOwnerChanged t n (connName t.bus o) (connName t.bus w)) (sigOwnerChanged t' n (connName t'.bus o) (connName t'.bus w))
+    rw [h.1, connName_shade, connName_shade]
+    exact shadow_sigOwnerChanged h hc n _ _
+
+theorem shadow_emitSigs (n : Bytes) : ∀ (sigs : List Sig) {t t' : Tx}, Shadow t t' → MonClean t.bus →
+    Shadow (sigs.foldl (emitSig n) t) (sigs.foldl (emitSig n) t')
+  | [], _, _, h, _ => h
+  | s :: sigs, t, t', h, hc => by
+    simp only [List.foldl_cons]
+    exact shadow_emitSigs n sigs (shadow_emitSig h hc n s) (by rw [emitSig_bus]; exact hc)
+
+theorem shadow_applyQueue {t t' : Tx} (h : Shadow t t') (hc : MonClean t.bus) (n : Bytes) (os' : List Owner) (sigs : List Sig) :
+    Shadow (applyQueue t n os' sigs) (applyQueue t' n os' sigs) := by
+  unfold applyQueue
+  have hs := shadow_emitSigs n sigs h hc
+  refine ⟨?_, hs.2⟩
+  show syncOwned ((sigs.foldl (emitSig n) t').bus.setOwners n os') n (ownersOf t'.bus n) os' =
+    shade (syncOwned ((sigs.foldl (emitSig n) t).bus.setOwners n os') n (ownersOf t.bus n) os')
+  rw [hs.1, h.1, setOwners_shade, syncOwned_shade]
+  rfl
+
+theorem shadow_acquire {t t' : Tx} (h : Shadow t t') (hc : MonClean t.bus) (c : ConnId) (n : Bytes) (flags : Nat) :
+    Shadow (acquire t c n flags).1 (acquire t' c n flags).1 ∧ (acquire t' c n flags).2 = (acquire t c n flags).2 := by
+  unfold acquire
+  rw [h.1, connPolicy_shade, nOwned_shade]
+  by_cases g1 : (!validateBusName n) = true
+  · simp only [g1, if_true]; first | exact ⟨h, rfl⟩ | exact ⟨h, trivial⟩
+  simp only [g1, if_false]
+  by_cases g2 : (n.head? == some 0x3a) = true
+  · simp only [g2, if_true]; first | exact ⟨h, rfl⟩ | exact ⟨h, trivial⟩
+  simp only [g2, if_false]
+  by_cases g3 : (n == BUS_NAME) = true
+  · simp only [g3, if_true]; first | exact ⟨h, rfl⟩ | exact ⟨h, trivial⟩
+  simp only [g3, if_false]
+  by_cases g4 : (!canOwn (connPolicy t.bus c) n) = true
+  · simp only [g4, if_true]; first | exact ⟨h, rfl⟩ | exact ⟨h, trivial⟩
+  simp only [g4, if_false]
+  by_cases g5 : nOwned t.bus c ≥ t.bus.limits.maxNames
+  · have g5' : nOwned t.bus c ≥ (shade t.bus).limits.maxNames := g5
+    simp only [g5, g5', if_true]; first | exact ⟨h, rfl⟩ | exact ⟨h, trivial⟩
+  have g5' : ¬ nOwned t.bus c ≥ (shade t.bus).limits.maxNames := g5
+  simp only [g5, g5', if_false]
+  first | exact ⟨shadow_applyQueue h hc n _ _, rfl⟩ | exact ⟨shadow_applyQueue h hc n _ _, trivial⟩
+
+theorem shadow_release {t t' : Tx} (h : Shadow t t') (hc : MonClean t.bus) (c : ConnId) (n : Bytes) :
+    Shadow (release t c n).1 (release t' c n).1 ∧ (release t' c n).2 = (release t c n).2 := by
+  unfold release
+  rw [h.1]
+  by_cases g1 : (!validateBusName n) = true
+  · simp only [g1, if_true]; first | exact ⟨h, rfl⟩ | exact ⟨h, trivial⟩
+  simp only [g1, if_false]
+  by_cases g2 : (n.head? == some 0x3a) = true
+  · simp only [g2, if_true]; first | exact ⟨h, rfl⟩ | exact ⟨h, trivial⟩
+  simp only [g2, if_false]
+  by_cases g3 : (n == BUS_NAME) = true
+  · simp only [g3, if_true]; first | exact ⟨h, rfl⟩ | exact ⟨h, trivial⟩
+  simp only [g3, if_false]
+  first | exact ⟨shadow_applyQueue h hc n _ _, rfl⟩ | exact ⟨shadow_applyQueue h hc n _ _, trivial⟩
+
+theorem shadow_removeOwner {t t' : Tx} (h : Shadow t t') (hc : MonClean t.bus) (n : Bytes) (c : ConnId) :
+    Shadow (removeOwner t n c) (removeOwner t' n c) := by
+  unfold removeOwner
+  rw [h.1]
+  exact shadow_applyQueue h hc n _ _
+
+theorem shadow_ensureService {t t' : Tx} (h : Shadow t t') (hc : MonClean t.bus) (n : Bytes) (c : ConnId) (flags : Nat) :
+    Shadow (ensureService t n c flags) (ensureService t' n c flags) :=
+  shadow_applyQueue h hc n _ _
+
+theorem shadow_reply {t t' : Tx} (h : Shadow t t') (c : ConnId) (call : Msg) (tys : List Ty) (body : List Val) :
+    Shadow (reply t c call tys body) (reply t' c call tys body) := shadow_sendFromDriver h c _
+
+/-! ### one whole dispatch of a message that is not addressed to the bus driver -/
+
+theorem senderNameOf_shade (b : Bus) (c : ConnId) : senderNameOf (shade b) c = senderNameOf b c := by
+  unfold senderNameOf; rw [nameOf_shade]
+
+theorem shadow_finish {t t' : Tx} (h : Shadow t t') (e : Option Err) (c : ConnId) (m : Msg) :
+    Shadow (finish (t, e) c m) (finish (t', e) c m) := by
+  cases e with
+  | none => exact h
+  | some e => exact shadow_sendFromDriver h c _
+
+/-- **Peer traffic ignores monitors, for a whole step.** A message from a registered connection that is
+    not a monitor, addressed to a peer or to nobody (a broadcast) — everything but calls to the bus
+    driver itself — is dispatched with the same ordinary deliveries, the same error reply and the same
+    state changes whether the monitors are monitors or idle ordinary connections. -/
+theorem dispatch_peer_traffic_shade (tbl : List IfaceRow) (b : Bus) (hc : MonClean b) (c : ConnId) (x : Conn) (m0 : Msg)
+    (hx : b.conn? c = some x) (hmon : x.monitor = false) (hname : x.name.isSome = true)
+    (hdest : ((strip m0).setSender (senderNameOf b c)).dest ≠ some BUS_NAME) :
+    (dispatch tbl (shade b) c m0).out = (dispatch tbl b c m0).out ∧
+    (dispatch tbl (shade b) c m0).bus = shade (dispatch tbl b c m0).bus := by
+  have hn : neutral x = x := by unfold neutral; simp [hmon]
+  have hx' : (shade b).conn? c = some x := by rw [conn?_shade, hx]; simp [hn]
+  unfold dispatch
+  rw [hx, hx']
+  dsimp only
+  by_cases h1 : ((strip m0).dest.isNone && (strip m0).iface == some PEER_IFACE) = true
+  · simp only [h1, if_true]; exact ⟨trivial, trivial⟩
+  simp only [h1, if_false, hmon, Bool.false_eq_true]
+  by_cases h2 : ((strip m0).dest.isNone && (strip m0).mtype != 4) = true
+  · simp only [h2, if_true]; exact ⟨trivial, trivial⟩
+  simp only [h2, if_false, senderNameOf_shade]
+  have hd : (((strip m0).setSender (senderNameOf b c)).dest == some BUS_NAME) = false := by
+    simpa using hdest
+  have hnn : x.name.isNone = false := by
+    cases hxn : x.name with
+    | none => rw [hxn] at hname; cases hname
+    | some _ => rfl
+  simp only [hd, Bool.false_eq_true, if_false, hnn]
+  have hr := shadow_route (t := { bus := b }) (t' := { bus := shade b }) ⟨rfl, rfl⟩ hc c ((strip m0).setSender (senderNameOf b c))
+  rcases h3 : route { bus := b } c ((strip m0).setSender (senderNameOf b c)) with ⟨t1, e1⟩
+  rcases h4 : route { bus := shade b } c ((strip m0).setSender (senderNameOf b c)) with ⟨t2, e2⟩
+  rw [h3, h4] at hr
+  obtain ⟨hs, he⟩ := hr
+  dsimp only at hs he
+  subst he
+  have hf := shadow_finish hs e2 c ((strip m0).setSender (senderNameOf b c))
+  exact ⟨hf.2, hf.1⟩
 
 end Dbus.Proofs.Bus
